@@ -282,7 +282,13 @@ SPEC = {
             "reference is the object of a subscript / swizzle / matrix swizzle / member access / method call, (B) in the own initialiser of a local "
             "called like the symbol (`int slot = v[slot];`); C01.fn programs for the scalar positions, C01.vfn for arrays / vectors / "
             "structs; the text evaluators follow C: a declarator's name is in scope in its own initialiser, the parameters "
-            "declared so far are in scope in a default argument, a local hides a function of its name) and the corpus; argument vectors of all generated streams "
+            "declared so far are in scope in a default argument, a local hides a function of its name), the enum-operand stream "
+            "(enumops.rs, 2040 programs: an int based and a uint based enum — `enum U { UA = 0, UB = 7, UM = 4294967295u }` — as a "
+            "variable or an enumerator x 14 other operands (int / uint / float / bool variables; the literals 0, 1, -1, 4294967295, 3u, "
+            "2.5f, true, (int)-1; an enumerator / a variable of the same enum) x the 18 binary operators x both operand orders, compound "
+            "assignments with the enum on the right, ?: between values of one enum; since fix 80dd7f9 the type checker does such an "
+            "operation in the enum's underlying type — `(uint)U::UM > (uint)i`, `(uint)x == 0u` — and accepts an enum next to an "
+            "untyped literal; 7 argument vectors with 0, -1, INT_MIN / INT_MAX, UINT_MAX, NaN; C01.vfn) and the corpus; argument vectors of all generated streams "
             "draw floats from NaNs (quiet, signalling, negative, full payload), both zeros, infinities, subnormals, FLT_MIN / FLT_MAX, the "
             "conversion limits around 2^24 / 2^31 / 2^32, and ints from 0, +-1, INT_MIN(+1), INT_MAX, UINT_MAX(-1), 31 / 32 / 33, rounding "
             "boundaries; the second vector of every function has NaN in every float parameter; statement attributes are evaluated through "
@@ -320,7 +326,8 @@ SPEC = {
                   "algebraic law. "
                   "Partial with respect to the property's quantifier: the vector layer has no assignment nested inside expressions, no "
                   "increment of vectors, no matrices, structs, arrays, enums, methods, templates, default parameters, overloads, vector built-ins — "
-                  "those are covered by the C01.vfn stream only (test, two independent evaluators, both flavours, bit-exact), as are "
+                  "those are covered by the C01.vfn stream only (test, two independent evaluators, both flavours, bit-exact; enum operands "
+                  "of binary operations, typed in the enum's underlying type since fix 80dd7f9, exhaustively by enumops.rs), "
                   "16/64-bit constants not at all; casts to a literal type are excluded (negation proved with a witness and replayed; "
                   "a vector operation or ?: with a literal operand (`boolvec + 1`, `intvec * 1.5`, `c ? intvec : 1.5`) is typed in the "
                   "concrete vector type since fixes 40c6233 / c05bffa and proved exported with its meaning kept "
